@@ -132,6 +132,11 @@ def m_cases(tier):
     tp = [(1, False, False, True, False), (2, False, False, False, False), (2, True, False, True, True)] if tier == "quick" else \
         [(nt, om, False, lm, cv) for nt in (1, 2, 3) for om in (False, True) for lm in (False, True) for cv in (False, True)]
     cs0 = [train_parts_case(nt, om, ol, lm, cv, prop="C07") for (nt, om, ol, lm, cv) in tp]
+    # the profile shape the update_res harnesses assume (res_net = running integral) is what PathTpc::extend has to build
+    import C06
+    cs0 += [C06.extend_case([(2, 2, 1), (3, 0, 0)], [[1], [2]], prop="C07"), C06.extend_case([(3, 2, 0), (2, 2, 1)], [[1, 2]], prop="C07")]
+    if tier == "thorough":
+        cs0 += [C06.extend_case([(2, 2, 1), (3, 2, 1), (2, 0, 0)], [[1], [2, 3]], prop="C07"), C06.extend_case([(2, 0, 0), (2, 2, 0), (2, 3, 0)], [[1, 2], [3]], prop="C07")]
     return cs0 + _m_cases(tier)
 
 
